@@ -55,14 +55,18 @@ def interp_run(case, code, obs, resume_steps):
     raised = Raised()
     current = {"stmt": None, "before": None}
 
+    orders = []
+
     class Spy(NumpyInterpreter):
         def evaluate_condition(self, stmt):
             current["stmt"] = stmt.id
+            orders[-1][1].append(int(stmt.id.rsplit("_", 1)[1]))
             return super().evaluate_condition(stmt)
 
         def run_single_step(self):
             current["before"] = {k: copy.deepcopy(v) for k, v in self.context.items()}
             current["phase"] = self.next_phase
+            orders.append([self.next_phase, []])
             yield from super().run_single_step()
 
     interp = Spy(code, raised.function_map())
@@ -98,6 +102,7 @@ def interp_run(case, code, obs, resume_steps):
         r["end"] = ["raised", nm] if nm in lang.RAISE_CLASSES and type(ex) is lang.RAISE_CLASSES[nm] else ["crash", nm]
     r["next"] = interp.next_phase
     r["final"] = snapshot()
+    r["orders"] = [list(o) for o in orders]
     r["visible"] = sorted(interp.context.keys())
     r["failed_stmt"] = current["stmt"]
     r["failed_phase"] = current.get("phase")
@@ -109,7 +114,9 @@ def interp_run(case, code, obs, resume_steps):
         fresh.context.update(state)
         fresh.next_phase = interp.next_phase
         sub = dict(case, mode="steps", limit=resume_steps)
+        n0 = len(orders)
         ra = c01.consume(interp, lambda: snapshot(interp), sub, StepCompleted, StepFailed, StateComputed)
+        ra["orders"] = [list(o) for o in orders[n0:]]
         rb = c01.consume(fresh, lambda: snapshot(fresh), sub, StepCompleted, StepFailed, StateComputed)
         r["resume_same"] = ra
         r["resume_fresh"] = rb
@@ -193,6 +200,10 @@ def oracle(case):
             # what changed during the failed step, and what may have
             phase = code.phases[ri["failed_phase"]]
             stmts = {s.id: s for s in phase.statements}
+            failed = stmts.get(ri["failed_stmt"])
+            # a statement that raises inside its loop nest keeps the effects of the iterations already done
+            partial = set(failed.get_written_variables()) if failed is not None and getattr(failed, "loops", None) \
+                else set()
             dependents = {ri["failed_stmt"]}
             grew = True
             while grew:
@@ -214,7 +225,7 @@ def oracle(case):
                 if a != b:
                     if n not in writers:
                         o = {"kind": "interp_unwritten_variable_changed", "name": n, "before": b, "after": a}
-                    elif writers[n] <= dependents:
+                    elif writers[n] <= dependents and n not in partial:
                         o = {"kind": "interp_dependent_variable_changed", "name": n, "before": b, "after": a,
                              "failed_stmt": ri["failed_stmt"]}
     if o is None and rg["end"][0] == "user":
